@@ -14,7 +14,7 @@ Definition trailers_ok : frame := FTrailers 0 None.
 Definition noeof (c : card) (x : extk) : env := mkE c 1 false false x None.
 
 (* a streaming handler: recv, headers, two messages around a sleep, return *)
-Definition p_stream : prog := mkP [Recv; SendInitial; SendMessage; Sleep; SendMessage] (Fin Return) Honour.
+Definition p_stream : prog := mkP [Recv; SendInitial false; SendMessage false; Sleep; SendMessage false] (Fin Return) Honour.
 Example ex_stream_out :
   r_out (run_call known_paths good_request (std_env SS ENone) p_stream) = [resp_headers; FData; FData; trailers_ok].
 Proof. vm_compute. reflexivity. Qed.
@@ -28,7 +28,7 @@ Proof. vm_compute. repeat split; discriminate. Qed.
 
 (* a unary handler that answers and then fails: the message is out, the status is UNKNOWN *)
 Example ex_exception :
-  let r := run_call known_paths good_request (std_env UU ENone) (mkP [Recv; SendMessage] (Fin RaiseException) Honour) in
+  let r := run_call known_paths good_request (std_env UU ENone) (mkP [Recv; SendMessage false] (Fin (RaiseException XPlain)) Honour) in
   r_out r = [resp_headers; FData; FTrailers 2 (Some internal_msg)] /\ exit_exn (r_end r) = Some EExc /\
   trail_done (r_pre r) = false /\ cancel_done (r_pre r) = false /\ reset_kind (r_end r) = false.
 Proof. vm_compute. repeat split. Qed.
@@ -59,7 +59,7 @@ Proof. vm_compute. reflexivity. Qed.
 (* explicit trailers, then raise: the explicit status stands *)
 Example ex_explicit_then_raise :
   let r := run_call known_paths good_request (std_env US ENone)
-             (mkP [SendMessage; SendTrailing 7 (Some (s2z "pd"))] (Fin (RaiseGRPC 3 (Some (s2z "late")))) Honour) in
+             (mkP [SendMessage false; SendTrailing 7 (Some (s2z "pd")) false] (Fin (RaiseGRPC 3 (Some (s2z "late")))) Honour) in
   trail_done (r_pre r) = true /\ final_status (r_out r) = Some (7, Some (s2z "pd")) /\
   r_out r = [resp_headers; FData; FTrailers 7 (Some (s2z "pd"))].
 Proof. vm_compute. repeat split. Qed.
@@ -78,20 +78,20 @@ Proof. vm_compute. repeat split. Qed.
 Example ex_deadline_in_sleep :
   let hs := with_header "grpc-timeout" "23436u" in
   let r := run_call known_paths hs (mkE SS 1 false true ENone (Some 1%nat))
-             (mkP [Sleep; SendMessage; Sleep; SendMessage] (Fin Return) Honour) in
+             (mkP [Sleep; SendMessage false; Sleep; SendMessage false] (Fin Return) Honour) in
   r_end r = KCancelled CDeadline /\ r_out r = [resp_headers; FData; FTrailers 4 None].
 Proof. vm_compute. repeat split. Qed.
 
 (* client RST_STREAM while the handler waits: nothing more is sent; a prefix of a response, not a response *)
 Example ex_client_reset :
-  let r := run_call known_paths good_request (std_env SS EReset) (mkP [SendMessage] Wait Honour) in
+  let r := run_call known_paths good_request (std_env SS EReset) (mkP [SendMessage false] Wait Honour) in
   r_end r = KCancelled CReset /\ reset_kind (r_end r) = true /\ r_out r = [resp_headers; FData] /\
   well_formed (r_out r) = true /\ accepted (r_out r) = false.
 Proof. vm_compute. repeat split. Qed.
 
 (* Server.close() swallowed: the handler goes on and the call ends normally *)
 Example ex_close_swallowed :
-  let r := run_call known_paths good_request (std_env UU EClose) (mkP [SendMessage] Wait (Swallow Return)) in
+  let r := run_call known_paths good_request (std_env UU EClose) (mkP [SendMessage false] Wait (Swallow Return)) in
   r_end r = KSwallowed CClose Return /\ r_out r = [resp_headers; FData; trailers_ok].
 Proof. vm_compute. repeat split. Qed.
 
@@ -99,12 +99,12 @@ Proof. vm_compute. repeat split. Qed.
    cancel -> no RST_STREAM any more; without the send_message the RST_STREAM goes out *)
 Example ex_h2_local_closed :
   let r := run_call known_paths good_request (noeof US ENone)
-             (mkP [SendTrailing 0 None; SendMessage; Cancel] (Fin Return) Honour) in
+             (mkP [SendTrailing 0 None false; SendMessage false; Cancel] (Fin Return) Honour) in
   r_out r = [FHeaders 200 true (Some 0) None true] /\ r_results r = [ROk; RH2Err; RH2Err].
 Proof. vm_compute. repeat split. Qed.
 Example ex_trailers_then_cancel :
   let r := run_call known_paths good_request (noeof US ENone)
-             (mkP [SendTrailing 0 None; Cancel] (Fin Return) Honour) in
+             (mkP [SendTrailing 0 None false; Cancel] (Fin Return) Honour) in
   r_out r = [FHeaders 200 true (Some 0) None true; FRst] /\ r_results r = [ROk; ROk].
 Proof. vm_compute. repeat split. Qed.
 
@@ -154,4 +154,38 @@ Example ex_timeouts :
   decode_timeout_zero (s2z "99999999n") = Some false /\ decode_timeout_zero (s2z "00000000H") = Some true /\
   decode_timeout_zero (s2z "123456789S") = None /\ decode_timeout_zero (s2z "5S ") = None /\
   decode_timeout_zero (s2z "S") = None /\ decode_timeout_zero (s2z "") = None.
+Proof. vm_compute. repeat split. Qed.
+
+(* the handler's own asyncio.TimeoutError while the request carries a deadline that is far away: UNKNOWN *)
+Example ex_own_timeout :
+  let hs := with_header "grpc-timeout" "100S" in
+  let r := run_call known_paths hs (std_env UU ENone) (mkP [Recv; SendMessage false] (Fin (RaiseException XTimeout)) Honour) in
+  validate known_paths hs = VAccept TValid /\ r_end r = KFin (RaiseException XTimeout) /\
+  trail_done (r_pre r) = false /\ cancel_done (r_pre r) = false /\
+  r_out r = [resp_headers; FData; FTrailers 2 (Some internal_msg)].
+Proof. vm_compute. repeat split. Qed.
+
+(* send_trailing_metadata with invalid metadata fails part-way; the handler then raises a plain exception:
+   the exit path still sends trailers (UNKNOWN) *)
+Example ex_trailing_fails_partway :
+  let r := run_call known_paths good_request (std_env UU ENone)
+             (mkP [SendMessage false; SendTrailing 0 None true] (Fin Return) Honour) in
+  r_results r = [ROk; RError] /\ trail_done (r_pre r) = false /\
+  r_out r = [resp_headers; FData; trailers_ok].
+Proof. vm_compute. repeat split. Qed.
+
+(* transport paused, send_trailing_metadata waits for write_ready, the deadline fires there: DEADLINE_EXCEEDED
+   once the environment resumes writing *)
+Example ex_paused_trailing_deadline :
+  let hs := with_header "grpc-timeout" "100S" in
+  let r := run_call known_paths hs (noeof UU ENone)
+             (mkP [SendMessage false; Pause; SendTrailing 5 (Some (s2z "x")) false] (Fin Return) Honour) in
+  r_results r = [ROk; ROk; RCancelled] /\ r_end r = KCancelled CDeadline /\
+  r_out r = [resp_headers; FData; FTrailers 4 None; FRst].
+Proof. vm_compute. repeat split. Qed.
+
+(* send_message fails in the codec after the implicit HEADERS went out *)
+Example ex_message_fails_partway :
+  let r := run_call known_paths good_request (std_env UU ENone) (mkP [SendMessage true] (Fin Return) Honour) in
+  r_results r = [RError] /\ r_out r = [resp_headers; FTrailers 2 (Some internal_msg)].
 Proof. vm_compute. repeat split. Qed.
